@@ -28,7 +28,7 @@ LEVEL = "exploration"
 NAMES = ["i", "xv", "x_1", "a$b"]
 NEW_NAMES = ["zz", "q1", "a_much_longer_name", "w"]
 PATTERNS = ["spaced", "tight", "square", "ifstmt", "callargs", "semicolon", "continuation", "uppercase", "comment", "literal", "substring", "funcarg",
-            "dotted", "continuation_amp"]
+            "dotted", "continuation_amp", "bang_literal"]
 
 
 def emit(f, ind, pat, n, e):
@@ -51,6 +51,10 @@ def emit(f, ind, pat, n, e):
     elif pat == "continuation_amp":
         f.add(ind, U(n, e), " = ", U(n, e), " + &")
         f.add(ind, "  & ", U(n, e), "*2 + ", U(n, e))
+    elif pat == "bang_literal":
+        # a '!' inside a character literal does not start a comment: the occurrences after it count
+        f.add(ind, "text = 'stop!'; ", U(n, e), " = ", U(n, e), " + 1")
+        f.add(ind, "print *, \"a!b\", ", U(n, e), " ! ", n, " in a real comment")
     elif pat == "uppercase":
         f.add(ind, U(n.upper(), e), " = ", U(n, e), " - ", U(n.capitalize(), e))
     elif pat == "comment":
